@@ -341,6 +341,13 @@ def run_shutdown(case: dict) -> dict:
                     return web.Response(text="slept-" + name)
                 if name.startswith("/never"):
                     await loop.create_future()
+                if name.startswith("/uploadslow/"):
+                    # starts reading only after the shutdown has begun; its whole body arrived long before and waits,
+                    # partly parsed, behind the reader's flow control
+                    await asyncio.sleep(float(name.split("/")[2]))
+                    data = await request.read()
+                    ev.append((loop.time(), "handler-finish", name))
+                    return web.Response(text=f"uploaded-{len(data)};")
                 if name.startswith("/upload"):
                     data = await request.read()
                     ev.append((loop.time(), "handler-finish", name))
@@ -414,6 +421,13 @@ def run_shutdown(case: dict) -> dict:
                     peer.send(f"GET /bigwrite/{i} HTTP/1.1\r\nHost: h\r\n\r\n".encode())
                 elif kind == "stream":
                     peer.send(f"GET /stream/{ph['d'] * T + ph['pre']}/{i} HTTP/1.1\r\nHost: h\r\n\r\n".encode())
+                elif kind == "upload_big":
+                    # a large chunked upload: what is still to come exceeds the reader's high-water mark in one piece, so the
+                    # parser is paused in the middle of it and resumed by the handler's reads - during the shutdown
+                    peer.send(f"POST /upload/{i} HTTP/1.1\r\nHost: h\r\nTransfer-Encoding: chunked\r\n\r\n".encode() + b"186a0\r\n" + b"u" * 100_000 + b"\r\n")
+                elif kind == "upload_stashed":
+                    peer.send(f"POST /uploadslow/{case['pre'] + 0.05}/{i} HTTP/1.1\r\nHost: h\r\nTransfer-Encoding: chunked\r\n\r\n".encode()
+                              + b"".join(b"186a0\r\n" + b"w" * 100_000 + b"\r\n" for _ in range(9)) + b"0\r\n\r\n")
                 elif kind == "upload":
                     # a request whose body is still on its way when the shutdown begins; the rest follows right after
                     peer.send(f"POST /upload/{i} HTTP/1.1\r\nHost: h\r\nContent-Length: 1000\r\n\r\n".encode() + b"u" * 400)
@@ -438,7 +452,11 @@ def run_shutdown(case: dict) -> dict:
             out["t_after_iters"] = loop.time()
             # requests arriving after the shutdown began
             for i, (peer, pt, st_, ph) in enumerate(conns):
-                if ph["kind"] == "upload" and not pt.closing:
+                if ph["kind"] == "upload_big" and not pt.closing:
+                    rest = b"".join(b"186a0\r\n" + b"v" * 100_000 + b"\r\n" for _ in range(8)) + b"0\r\n\r\n"
+                    peer.send(rest)
+                    ev.append((loop.time(), "upload-rest-sent", i))
+                elif ph["kind"] == "upload" and not pt.closing:
                     peer.send(b"u" * 600 + (f"GET /late/{i} HTTP/1.1\r\nHost: h\r\n\r\n".encode() if ph.get("late") else b""))
                     ev.append((loop.time(), "upload-rest-sent", i))
                 elif ph.get("late") and not pt.closing:
@@ -490,13 +508,13 @@ def check_shutdown(rec: Rec, case: dict) -> None:
         started = any(e[1] == "handler-start" for e in hs)
         finished = [e for e in hs if e[1] == "handler-finish"]
         cancelled = [e for e in hs if e[1] == "handler-cancelled"]
-        active_at_t0 = started and not any(e[0] <= t0 for e in finished + cancelled) if kind in ("sleep", "never", "stream", "bigwrite", "upload") else False
-        if kind == "upload" and active_at_t0:
+        active_at_t0 = started and not any(e[0] <= t0 for e in finished + cancelled) if kind in ("sleep", "never", "stream", "bigwrite", "upload", "upload_big", "upload_stashed") else False
+        if kind in ("upload", "upload_big", "upload_stashed") and active_at_t0:
             # its body arrives in full right after the shutdown began: "may complete during the shutdown timeout"
             if cancelled or not finished:
                 raise Violation("upload-in-progress-cannot-complete", f"the handler of connection {i} was reading a request body when the shutdown began; the rest of the body "
                                 f"arrived at once, yet the handler was cancelled / never finished; {desc}")
-            if b"uploaded-1000;" not in out["received"][i]:
+            if (b"uploaded-1000;" if kind == "upload" else b"uploaded-900000;") not in out["received"][i]:
                 raise Violation("response-lost-in-shutdown", f"upload handler of connection {i} finished but its response did not reach the peer: {out['received'][i][-120:]!r}; {desc}")
         if kind in ("fresh", "keepalive") or (kind in ("sleep", "stream") and not active_at_t0 and started):
             # idle at the shutdown instant: closed at once
@@ -556,7 +574,7 @@ def shutdown_cases(draw):
     n = draw(st.integers(1, 4))
     conns = []
     for _ in range(n):
-        kind = draw(st.sampled_from(["fresh", "keepalive", "half", "sleep", "sleep", "never", "stream", "bigwrite", "upload"]))
+        kind = draw(st.sampled_from(["fresh", "keepalive", "half", "sleep", "sleep", "never", "stream", "bigwrite", "upload", "upload_big", "upload_stashed"]))
         ph = {"kind": kind, "late": draw(st.booleans())}
         if kind in ("sleep", "stream"):
             ph["d"] = draw(st.sampled_from([0.3, 0.8, 1.5, 0.0]))
